@@ -1,3 +1,30 @@
 // harnesses mounted as child module of agdb/src/collections/bit_set.rs
 #[allow(unused_imports)]
 use super::*;
+
+//@ id=C14 tier=quick timeout=600 bounds="bit numbers u, v < 40 (up to 5 bytes), queried bit w < 64; empty set at start" desc="BitSet used as the visited set of the searches: after set(u), set(v) exactly u and v read as set (also beyond the allocated bytes), setting twice changes nothing, the byte vector grows to exactly the highest byte needed" kernel="BitSet::set,BitSet::value,BitSet::new" args="--no-assertion-reach-checks"
+#[kani::proof]
+#[kani::unwind(7)]
+fn c14_bitset_visited_set() {
+    let mut b = BitSet::new();
+    let u: u64 = kani::any();
+    let v: u64 = kani::any();
+    let w: u64 = kani::any();
+    kani::assume(u < 40 && v < 40 && w < 64);
+    assert!(!b.value(w), "empty set has a member");
+    b.set(u);
+    assert!(b.value(u), "bit not set");
+    assert!(b.value(w) == (w == u), "set(u) changed another bit");
+    b.set(v);
+    assert!(b.value(w) == (w == u || w == v), "membership differs after two sets");
+    let len = b.data.len();
+    b.set(u);
+    assert!(b.value(w) == (w == u || w == v), "setting twice changed the set");
+    assert!(b.data.len() == len, "setting twice grew the vector");
+    let hi = if u > v { u } else { v };
+    assert!(len == (hi / 8 + 1) as usize, "vector length is not the highest byte + 1");
+    kani::cover!(u / 8 > v / 8 && v % 8 == 7, "second bit in a lower byte, top bit of it");
+    kani::cover!(v / 8 == 4 && u / 8 == 0, "growth by four bytes on the second set");
+    kani::cover!(true, "end of harness reachable");
+    std::mem::forget(b);
+}
